@@ -35,7 +35,9 @@ RULE = (
     "open range for forward(inverse(y)); ParamTransform: every assignment of 7 transform types to the leaves of 3 "
     "pytree shapes x value tables, eager and jit; the same for 3 layouts in which one key occurs in two or three entries "
     "(what get_parameters() returns after several make_trainable calls on one parameter; routing judged per entry "
-    "POSITION) and for the plain-array + single-Transform call form. An outcome is distinct if its (configuration, pass, regime bucket, "
+    "POSITION) and for the plain-array + single-Transform call form; forward/inverse of every single, chain and 1 in 8 masked configurations "
+    "on writable numpy arrays, twice on the same array (caller's array untouched, repeatable, equal to the jax-array route), and ParamTransform "
+    "over two entries sharing one numpy leaf. An outcome is distinct if its (configuration, pass, regime bucket, "
     "outcome class) is new; ParamTransform outcomes are distinct by (shape, assignment, values, rounded result)"
 )
 REQUIRED_COVER = [
@@ -53,6 +55,8 @@ REQUIRED_COVER = [
     "param_transform_plain_array",
     "float32_qualitative",
     "oracle_satisfiable_by_stable_reference",
+    "numpy_route",
+    "numpy_leaf_shared_by_two_entries",
 ]
 ASSUMPTIONS = [
     "round-off reading of 'within the declared bounds': a bound b may be exceeded by at most 4 ulp(b) of the working "
@@ -844,7 +848,86 @@ def run_config(desc, tier, impl="jaxley"):
     return res
 
 
+NP_POINTS = [-3.0, -1.0, -0.25, 0.0, 0.5, 2.0]
+
+
+def jdump_kinds(desc):
+    if desc["kind"] == "chain":
+        return [k for st in desc["stages"] for k in jdump_kinds(st)]
+    if desc["kind"] == "masked":
+        return jdump_kinds(desc["inner"])
+    return [desc["kind"]]
+
+
+def check_numpy(desc):
+    """Caller's arrays: forward / inverse (and ParamTransform over leaves that are numpy arrays, two entries sharing ONE array) called
+    twice on the same writable numpy array must leave it untouched, repeat their result, and agree with the jax-array route."""
+    import jax.numpy as jnp
+    import jaxley.optimize.transforms as T
+
+    out = {"violations": [], "cover": [], "refusals": [], "digests": [], "evals": 0}
+    t = build(desc)
+    pts = np.asarray(NP_POINTS[:3] if desc["kind"] == "masked" else NP_POINTS, dtype=np.float64)
+    # a CustomTransform runs the USER's functions on whatever array type it is given (the harness's own use numpy ops on numpy
+    # input and jax ops on jax input, which round differently in ill-conditioned inverses): route equality is not judged there
+    has_custom = "custom" in jdump_kinds(desc)
+
+    def viol(rule, fn, msg):
+        out["violations"].append({"sig": {"rule": rule, "transform": desc["kind"], "call": fn},
+                                  "witness": {"t": "numpy_route", "desc": desc}, "msg": f"{_describe(desc)}: {msg}"})
+
+    def same(a, b):
+        a, b = np.asarray(a, float), np.asarray(b, float)
+        return a.shape == b.shape and bool(np.all((np.abs(a - b) <= 1e-9 * (1 + np.abs(b))) | (np.isnan(a) & np.isnan(b)) | (a == b)))
+
+    def twice(fn_name, call, arr):
+        arr0 = arr.copy()
+        out["evals"] += 1
+        try:
+            r1 = np.asarray(call(arr))
+        except Exception as e:
+            out["refusals"].append(f"numpy_input:{desc['kind']}:{fn_name}:{type(e).__name__}")
+            return None
+        if not np.array_equal(arr, arr0, equal_nan=True):
+            viol("caller_array_mutated", fn_name, f"{fn_name} changed the caller's numpy array {arr0.tolist()} -> {arr.tolist()}")
+            return None
+        r2 = np.asarray(call(arr))
+        if not same(r2, r1):
+            viol("repeated_call_differs", fn_name, f"second {fn_name} on the same array gives {r2.tolist()} after {r1.tolist()}")
+            return None
+        rj = np.asarray(call(jnp.asarray(arr0)))
+        if not has_custom and not same(r1, rj):
+            viol("numpy_route_differs", fn_name, f"{fn_name}(numpy) = {r1.tolist()} vs {fn_name}(jax array) = {rj.tolist()}")
+            return None
+        out["cover"].append("numpy_route")
+        return r1
+
+    f = twice("forward", t.forward, pts.copy())
+    if f is not None and np.all(np.isfinite(f)):
+        twice("inverse", t.inverse, np.array(f, dtype=np.float64))
+    if desc["kind"] != "masked":
+        shared = np.array(f if f is not None and np.all(np.isfinite(f)) else pts, dtype=np.float64)
+        ptf = T.ParamTransform([{"a": t}, {"b": t}])
+        keep = shared.copy()
+        try:
+            r = ptf.inverse([{"a": shared}, {"b": shared}])
+            want = np.asarray(t.inverse(jnp.asarray(keep)))
+            out["evals"] += 1
+            if not np.array_equal(shared, keep, equal_nan=True):
+                viol("caller_array_mutated", "param_inverse", "ParamTransform.inverse changed the caller's numpy leaf")
+            elif not same(r[0]["a"], r[1]["b"]) or (not has_custom and not same(r[0]["a"], want)):
+                viol("numpy_route_differs", "param_inverse", f"two entries sharing one numpy array: {np.asarray(r[0]['a']).tolist()} / {np.asarray(r[1]['b']).tolist()} vs {want.tolist()}")
+            else:
+                out["cover"].append("numpy_leaf_shared_by_two_entries")
+        except Exception as e:
+            out["refusals"].append(f"numpy_input:param:{type(e).__name__}")
+    out["digests"].append(digest(["numpy_route", desc]))
+    return out
+
+
 def work(item):
+    if item["t"] == "numpy_route":
+        return check_numpy(item["desc"])
     if item["t"] == "config":
         res = run_config(item["desc"], item["tier"], "jaxley")
         ref = run_config(item["desc"], item["tier"], "stable")
@@ -1183,6 +1266,7 @@ def explore(ctx):
     items = [{"t": "config", "desc": d, "tier": ctx.tier} for d in singles + chains + masked]
     pts = pt_items(ctx.tier)
     items += pts
+    items += [{"t": "numpy_route", "desc": d} for d in singles + chains + masked[::8]]
     ctx.note("configurations", {"single": len(singles), "chain": len(chains), "masked": len(masked), "param_transform_assignments": len(pts)})
     ctx.note("lattice", dict(tier_cfg(ctx.tier), interval=[-1e6, 1e6], specials=BASE_SPECIALS,
                              base_points=int(x_lattice({"kind": "chain", "stages": []}, ctx.tier).size)))
@@ -1201,6 +1285,8 @@ def explore(ctx):
 
 
 def replay(w):
+    if w["t"] == "numpy_route":
+        return check_numpy(w["desc"])["violations"]
     if w["t"] == "param":
         viol, _, _, _ = check_param(w["lengths"], w["assign"], w["vid"], None, w.get("keys"))
         return viol
